@@ -55,7 +55,12 @@ _cache = {}
 def run_schedule(kind, progs, schedule=None, rng=None, prefix=(), max_steps=100000):
     """run the implementation under a schedule (given, or first-enabled after `prefix`, or random);
     returns (schedule, views, enabled sets, run object)"""
-    r = cs.Run(progs, kind)
+    try:
+        r = cs.Run(progs, kind)
+    except Exception as e:  # noqa  (the zone cannot be constructed / the threads cannot reach their first gate)
+        cs.dns.versioned.threading = cs.real_threading
+        return [], [Err(198, "setting up the run raised " + type(e).__name__ + ": " + str(e)[:80])], [], \
+            {"deadlock": False, "errors": [repr(e)], "admission": [], "arrival": [], "end_order": []}
     sched, views, choices = [], [], []
     i = 0
     try:
@@ -97,6 +102,8 @@ def all_schedules(kind, progs, cap):
         sched, views, choices, info = run_schedule(kind, progs, prefix=prefix)
         n += 1
         yield sched, views, info
+        if views and isinstance(views[0], Err) and views[0].code == 198:
+            return
         j = len(sched) - 1
         while j >= 0:
             en = choices[j]
@@ -283,7 +290,13 @@ def generated_obligations(ctx):
 
 
 def extra(ctx):
-    return c12_lines.check(ctx)
+    import traceback
+    try:
+        return c12_lines.check(ctx)
+    except Exception:  # noqa
+        return [{"kind": "C12:line-level exploration crashed", "sig": "lines crashed",
+                 "what": "line-level exploration could not run: " + traceback.format_exc()[-600:],
+                 "case": [0, [W1, W1b], []]}]
 
 
 def widen(ctx, disagreements):
